@@ -11,7 +11,7 @@ use rspirv::dr::Operand;
 #[derive(Clone, Debug)]
 enum Item {
     TypeInt { id: u32, width: u32, sign: u32 },
-    TypeFloat { id: u32, width: u32 },
+    TypeFloat { id: u32, width: u32, enc: bool },
     /// result-producing instruction with result type (propagates the type)
     Value { op: u32, ty: u32, id: u32, extra: Vec<u32> },
     /// OpConstant / OpSpecConstant with `lit.len()` literal words
@@ -25,7 +25,13 @@ impl Item {
     fn words(&self) -> Vec<u32> {
         let body: Vec<u32> = match self {
             Item::TypeInt { id, width, sign } => vec![OP_TYPE_INT, *id, *width, *sign],
-            Item::TypeFloat { id, width } => vec![OP_TYPE_FLOAT, *id, *width],
+            Item::TypeFloat { id, width, enc } => {
+                let mut v = vec![OP_TYPE_FLOAT, *id, *width];
+                if *enc {
+                    v.push(0x7fff_ffff); // FPEncoding (only declared enumerant)
+                }
+                v
+            }
             Item::Value { op, ty, id, extra } => {
                 let mut v = vec![*op, *ty, *id];
                 v.extend(extra);
@@ -106,7 +112,7 @@ fn gen_history(cs: &mut Cs) -> History {
                     6 => 8,
                     _ => 128,
                 };
-                items.push(Item::TypeFloat { id, width });
+                items.push(Item::TypeFloat { id, width, enc: cs.below(4) == 0 });
                 types.push(id);
             }
             3 | 4 => {
@@ -305,7 +311,7 @@ fn sub_grid(input: &[u8], st: &mut Stats) -> R {
     if is_int {
         items.push(Item::TypeInt { id: 1, width: w, sign });
     } else {
-        items.push(Item::TypeFloat { id: 1, width: w });
+        items.push(Item::TypeFloat { id: 1, width: w, enc: sign == 1 });
     }
     for _ in 0..gap {
         items.push(Item::Other(vec![0x0001_0000]));
